@@ -4,7 +4,7 @@
    Regenerated on every run (coq/Gen):
      GenPanic.v    PANIC_SELECTOR_BYTES, slice bounds, is_panic_decide   (CallOutput.is_panic_of)
      GenRunTest.v  Exitcode values, classify, stuck_counts, width_cut, verdict,
-                   {setup,test,target}_warns_loop_bound                 (run_test / setup / run_target_function)
+                   setup_path_ok, setup_keeps, {setup,test,target}_warns_loop_bound  (run_test / setup / run_target_function)
    Solver answers: S_UNSAT = 0, S_SAT = 1, S_UNKNOWN = 2, S_ERR = 3. *)
 From Coq Require Import ZArith List Bool.
 From HV Require Import Gen.GenPanic Gen.GenRunTest Spec.PanicSpec.
@@ -174,17 +174,20 @@ Section RunTest.
 
   (* ---------------------------------------------------------------- setup() *)
 
-  Record spath := mkSpath { sp_error : bool; sp_query : Q }.
+  (* one explored path of setUp: `output.error` is set; CallContext.is_stuck() (output data None, or a
+     HalmosException); its query *)
+  Record spath := mkSpath { sp_error : bool; sp_stuck : bool; sp_query : Q }.
   Inductive setup_result := SetupOk (p : spath) | SetupNoPath | SetupMultiple.
 
-  (* the paths without error; if more than one, those the solver does not refute *)
+  (* the paths that count as successful (regenerated test setup_path_ok); if more than one, those kept
+     given the solver's answer on their query (regenerated filter setup_keeps) *)
   Definition setup_select (paths : list spath) : setup_result :=
-    let ok := filter (fun p => negb (sp_error p)) paths in
+    let ok := filter (fun p => setup_path_ok (sp_error p) (sp_stuck p)) paths in
     match ok with
     | [] => SetupNoPath
     | [p] => SetupOk p
     | _ =>
-        match filter (fun p => negb (solve_low (sp_query p) =? S_UNSAT)) ok with
+        match filter (fun p => setup_keeps (solve_low (sp_query p))) ok with
         | [] => SetupNoPath
         | [p] => SetupOk p
         | _ => SetupMultiple
@@ -194,7 +197,7 @@ End RunTest.
 
 Arguments mkLeaf {Q}.  Arguments l_ctx {Q}.  Arguments l_data {Q}.  Arguments l_query {Q}.
 Arguments mkExploration {Q}.  Arguments ex_leaves {Q}.  Arguments ex_bounded {Q}.  Arguments ex_depth_cut {Q}.
-Arguments mkSpath {Q}.  Arguments sp_error {Q}.  Arguments sp_query {Q}.
+Arguments mkSpath {Q}.  Arguments sp_error {Q}.  Arguments sp_stuck {Q}.  Arguments sp_query {Q}.
 Arguments SetupOk {Q}.  Arguments SetupNoPath {Q}.  Arguments SetupMultiple {Q}.
 
 (* ------------------------------------------------------------------ solve.solve_end_to_end *)
